@@ -85,6 +85,11 @@ pub struct Field {
     pub access: Access,
     /// write the field type with its full path (`arbitrary_int::u5`) instead of the bare alias
     pub qualified: bool,
+    /// class-C probes only: the custom type (enum / nested bitfield) of a write-only field is
+    /// declared this wide although the field selects fewer bits. The README promises a compile
+    /// error for such a mismatch.
+    #[serde(default)]
+    pub type_width: Option<u32>,
 }
 
 impl Field {
@@ -146,7 +151,12 @@ impl Field {
         }
         false
     }
-    /// values that may be written through this field: None = any W-bit pattern, Some = listed
+    /// width of the declared field type (differs from `width()` only in class-C probes)
+    pub fn value_width(&self) -> u32 {
+        self.type_width.unwrap_or_else(|| self.width())
+    }
+    /// values that may be written through this field: None = any pattern of `value_width()`
+    /// bits, Some = listed
     pub fn legal_values(&self) -> Option<Vec<u128>> {
         match &self.kind {
             Kind::EnumOpt { discs } => Some(discs.iter().map(|h| h.0).collect()),
@@ -248,9 +258,9 @@ pub fn field_summary(f: &Field) -> String {
         Kind::Bool => "bool".to_string(),
         Kind::Arb | Kind::Native => format!("u{}", f.width()),
         Kind::Signed => format!("i{}", f.width()),
-        Kind::EnumExh => format!("enum{}", f.width()),
-        Kind::EnumOpt { discs } => format!("Option<enum{}/{}>", f.width(), discs.len()),
-        Kind::Nested => format!("nested{}", f.width()),
+        Kind::EnumExh => format!("enum{}", f.value_width()),
+        Kind::EnumOpt { discs } => format!("Option<enum{}/{}>", f.value_width(), discs.len()),
+        Kind::Nested => format!("nested{}", f.value_width()),
     };
     let arr = match f.array {
         Some(a) => format!("[{};{}] stride {}", k, a.count, a.stride),
@@ -483,7 +493,7 @@ fn gen_field(rng: &mut Rng, n: u32, idx: usize, arb_only: bool) -> Option<Field>
         } else {
             place_parts(rng, &[w], n, bias_top, bias_bottom)
         };
-        return Some(Field { name, kind, ranges, array: None, access, qualified });
+        return Some(Field { name, kind, ranges, array: None, access, qualified, type_width: None });
     }
 
     if !multi {
@@ -514,6 +524,7 @@ fn gen_field(rng: &mut Rng, n: u32, idx: usize, arb_only: bool) -> Option<Field>
             array: Some(Arr { count, stride, explicit }),
             access,
             qualified,
+            type_width: None,
         });
     }
 
@@ -548,6 +559,7 @@ fn gen_field(rng: &mut Rng, n: u32, idx: usize, arb_only: bool) -> Option<Field>
                 array: Some(Arr { count, stride, explicit: true }),
                 access,
                 qualified,
+                type_width: None,
             };
             if allow_overlap || !f.self_overlap() {
                 return Some(f);
@@ -600,6 +612,7 @@ pub fn gen_layout(rng: &mut Rng, id: u32, o: GenOpts) -> Layout {
             array: None,
             access: Access::RW,
             qualified: false,
+            type_width: None,
         });
     }
     // guarantee at least one writable and one readable field so every layout can do some work
@@ -640,7 +653,7 @@ fn probe(id: u32, n: u32, name: &str, fields: Vec<Field>, default: bool) -> Layo
 }
 
 fn fld(name: &str, kind: Kind, ranges: Vec<(u32, u32)>, array: Option<Arr>) -> Field {
-    Field { name: name.into(), kind, ranges, array, access: Access::RW, qualified: false }
+    Field { name: name.into(), kind, ranges, array, access: Access::RW, qualified: false, type_width: None }
 }
 
 fn kind_for_width(w: u32, rng: &mut Rng) -> Kind {
@@ -652,6 +665,16 @@ fn kind_for_width(w: u32, rng: &mut Rng) -> Kind {
         }
     } else {
         Kind::Arb
+    }
+}
+
+/// End (exclusive) of a probe array: half of the time exactly one bit too far (off-by-one in a
+/// bounds check), otherwise anywhere up to the end of the storage integer.
+fn probe_end(rng: &mut Rng, min_end: u32, s: u32) -> u32 {
+    if rng.chance(1, 2) {
+        min_end
+    } else {
+        rng.range(min_end as u64, s as u64) as u32
     }
 }
 
@@ -679,7 +702,7 @@ pub fn gen_probes(rng: &mut Rng, n: u32, first_id: u32) -> Vec<Layout> {
     // 2. range straddling N-1 / N
     {
         let room_above = s - n;
-        let above = rng.range(1, room_above as u64) as u32;
+        let above = if rng.chance(1, 2) { 1 } else { rng.range(1, room_above as u64) as u32 };
         let below = rng.range(1, n.min(8) as u64) as u32;
         let w = above + below;
         let lo = n - below;
@@ -718,7 +741,7 @@ pub fn gen_probes(rng: &mut Rng, n: u32, first_id: u32) -> Vec<Layout> {
             if min_end > s {
                 continue;
             }
-            let end = rng.range(min_end as u64, s as u64) as u32;
+            let end = probe_end(rng, min_end, s);
             let lo = end - span;
             let k = if w == 1 && rng.chance(1, 2) { Kind::Bool } else { kind_for_width(w, rng) };
             push(
@@ -744,7 +767,7 @@ pub fn gen_probes(rng: &mut Rng, n: u32, first_id: u32) -> Vec<Layout> {
             if min_end > s {
                 continue;
             }
-            let end = rng.range(min_end as u64, s as u64) as u32;
+            let end = probe_end(rng, min_end, s);
             let lo = end - span;
             let k = if w == 1 { Kind::Bool } else { kind_for_width(w, rng) };
             push(
@@ -758,9 +781,10 @@ pub fn gen_probes(rng: &mut Rng, n: u32, first_id: u32) -> Vec<Layout> {
     }
     // 6. non-contiguous list with one range above N
     if n >= 2 {
-        let wa = rng.range(1, (s - n).min(6) as u64) as u32;
+        let off_by_one = rng.chance(1, 2);
+        let wa = if off_by_one { 1 } else { rng.range(1, (s - n).min(6) as u64) as u32 };
         let wb = rng.range(1, n.min(6) as u64) as u32;
-        let la = rng.range(n as u64, (s - wa) as u64) as u32;
+        let la = if off_by_one { n } else { rng.range(n as u64, (s - wa) as u64) as u32 };
         let lb = rng.range(0, (n - wb) as u64) as u32;
         let w = wa + wb;
         let k = kind_for_width(w, rng);
@@ -784,7 +808,7 @@ pub fn gen_probes(rng: &mut Rng, n: u32, first_id: u32) -> Vec<Layout> {
             if min_end > s {
                 continue;
             }
-            let end = rng.range(min_end as u64, s as u64) as u32;
+            let end = probe_end(rng, min_end, s);
             let lo = end - span;
             let f = fld(
                 "arr",
@@ -804,6 +828,141 @@ pub fn gen_probes(rng: &mut Rng, n: u32, first_id: u32) -> Vec<Layout> {
         let w = rng.range(1, (s - n) as u64) as u32;
         let lo = rng.range(n as u64, (s - w) as u64) as u32;
         push(&mut out, "nested-above-N", vec![fld("hi", Kind::Nested, vec![(lo, lo + w - 1)], None), low(rng)], rng);
+    }
+    out
+}
+
+// ------------------------------------------------------------------------------------------------
+// Class C probes: a write-only field whose custom type (bitenum / nested bitfield) is wider than
+// the bits the field selects. The README promises a compile error for a width mismatch; for `rw`
+// and `r` fields the getter's call to `T::new_with_raw_value(uW)` enforces it, for `w` fields
+// nothing does. If the tree under test accepts such a declaration it is simulated: the reference
+// register writes exactly the field's bits, so a setter that ORs the whole raw value in is seen
+// as a write outside the field (C12) or as state above bit N-1 (C11, field at the top).
+// ------------------------------------------------------------------------------------------------
+
+fn nonregular(w: u32) -> bool {
+    !is_native(w)
+}
+
+pub fn gen_mismatch_probes(rng: &mut Rng, n: u32, first_id: u32, at_top: bool) -> Vec<Layout> {
+    let mut out = Vec::new();
+    if n < 3 {
+        return out;
+    }
+    let mut id = first_id;
+    // (field width, type width) pairs that the macro's two code paths (arbitrary-int raw value
+    // with `.value()`, native raw value) can both be asked to accept
+    let mut pairs: Vec<(u32, u32, &str)> = Vec::new();
+    for _ in 0..3 {
+        let w = rng.range(1, (n - 1).min(6) as u64) as u32;
+        let tw = w + rng.range(1, 3) as u32;
+        if nonregular(w) && nonregular(tw) {
+            pairs.push((w, tw, "enum"));
+        }
+    }
+    for _ in 0..2 {
+        let w = rng.range(1, (n - 1).min(20) as u64) as u32;
+        let tw = (w + rng.range(1, 12) as u32).min(127);
+        if nonregular(w) && nonregular(tw) && tw > w {
+            pairs.push((w, tw, "nested"));
+        }
+    }
+    for &(w, tw) in &[(8u32, 16u32), (16, 32), (8, 64), (32, 64)] {
+        if w < n && rng.chance(1, 2) {
+            pairs.push((w, tw, if rng.chance(1, 2) && tw <= 64 { "enum" } else { "nested" }));
+        }
+    }
+    for (w, tw, what) in pairs {
+        // position: at the top of the base (spill leaves the base) or below a neighbour
+        let lo = if at_top || n == w + 1 && rng.chance(1, 2) {
+            n - w
+        } else {
+            rng.range(0, (n - w - 1) as u64) as u32
+        };
+        let hi = lo + w - 1;
+        let kind = if what == "nested" {
+            Kind::Nested
+        } else if tw <= 5 {
+            Kind::EnumExh
+        } else {
+            // variants whose discriminant has bits above the field's width
+            let m = mask(tw);
+            let mut discs: Vec<u128> = vec![m, 1u128 << w, 1];
+            let extra = (rng.next_u128() & m) | (1u128 << (tw - 1));
+            if !discs.contains(&extra) {
+                discs.push(extra);
+            }
+            discs.sort();
+            discs.dedup();
+            Kind::EnumOpt { discs: discs.into_iter().map(Hex).collect() }
+        };
+        let mut fields = vec![Field {
+            name: "wide".into(),
+            kind,
+            ranges: vec![(lo, hi)],
+            array: None,
+            access: Access::W,
+            qualified: false,
+            type_width: Some(tw),
+        }];
+        if hi + 1 < n {
+            let top = (hi + (tw - w)).min(n - 1);
+            if top > hi + 1 && nonregular(top - hi) && rng.chance(1, 2) {
+                fields.push(fld("nb", Kind::Arb, vec![(hi + 1, top)], None));
+            } else {
+                fields.push(fld("nb", Kind::Bool, vec![(hi + 1, hi + 1)], None));
+            }
+        }
+        if lo > 0 {
+            fields.push(fld("lo", Kind::Bool, vec![(0, 0)], None));
+        }
+        // a readable view over the mismatched field's own bits, so its content can be observed
+        if nonregular(w) {
+            let mut v = fld("view", Kind::Arb, vec![(lo, hi)], None);
+            v.access = Access::R;
+            fields.push(v);
+        }
+        out.push(Layout {
+            id,
+            bits: n,
+            default: if rng.chance(1, 2) { Some(DefaultDecl { value: Hex(0), form: 0 }) } else { None },
+            fields,
+            class: format!("C:{what}{tw}-in-{w}-bits-write-only"),
+        });
+        id += 1;
+    }
+    out
+}
+
+// ------------------------------------------------------------------------------------------------
+// Class D probes: an arbitrary-int base whose `default` has bits at or above N. The pinned tree
+// rejects these (`uN::new(default)` is evaluated in a const and panics); a tree that accepts one
+// gets it simulated with histories that start from DEFAULT / Default::default() / new() / the
+// builder.
+// ------------------------------------------------------------------------------------------------
+
+pub fn gen_default_probes(rng: &mut Rng, n: u32, first_id: u32) -> Vec<Layout> {
+    let s = storage_bits(n);
+    let mut out = Vec::new();
+    if is_native(n) || s <= n {
+        return out;
+    }
+    for k in 0..2u32 {
+        let above = if k == 0 { 1u128 << n } else { (rng.next_u128() | (1u128 << (s - 1))) & mask(s) & !mask(n) };
+        let below = rng.next_u128() & mask(n);
+        let mut fields = vec![fld("lo", Kind::Bool, vec![(0, 0)], None)];
+        if n >= 3 {
+            let w = rng.range(1, (n - 1).min(7) as u64) as u32;
+            fields.push(fld("top", Kind::Arb, vec![(n - w, n - 1)], None));
+        }
+        out.push(Layout {
+            id: first_id + k,
+            bits: n,
+            default: Some(DefaultDecl { value: Hex(above | below), form: (rng.below(3)) as u8 }),
+            fields,
+            class: "D:default-has-bits-above-N".into(),
+        });
     }
     out
 }
